@@ -1,0 +1,18 @@
+//! Verification hooks (cargo feature `verif`, off by default).
+//!
+//! Nothing in here is compiled into a normal build. The module re-exports crate-private types so
+//! that an external harness can drive the real code, and provides an in-memory socket, an event
+//! sink, a dial registry, a scripted tracker and failpoints.
+#![allow(missing_docs)]
+
+pub use crate::bcodec::bencoder::BEncoder;
+pub use crate::commands::*;
+pub use crate::connection::Connection;
+pub use crate::constants::*;
+pub use crate::extractor::Extractor;
+pub use crate::frame::Frame;
+pub use crate::messages::*;
+pub use crate::peer_handler::PeerHandler;
+pub use crate::serializer::Serializer;
+pub use crate::session::Status;
+pub use crate::utils::hash_to_string;
